@@ -166,4 +166,21 @@ PROPS = {
         "assumptions": ["omitted TTL means $TTL if one was given, else the last explicitly stated TTL (RFC 2308 4 / RFC 1035 5.1); the renderer never omits a TTL before one was stated",
                         "after an error the reader is not asked for further entries (documented)"],
     },
+    "C08": {
+        "level": "exploration",
+        "features": ["crypto", "hooks"],
+        "stages": [
+            {"mode": "native", "cpu_budget": 60},
+        ],
+        "rule": "an evaluation is one (zone content, construction history, qname, qtype): zones over a 6-label alphabet (depth <= 3) with delegations (DS, in- and "
+                "out-of-zone glue, occluded data), CNAMEs, wildcards, empty non-terminals and case variants; six histories ending in the same content (typed "
+                "ZoneBuilder, zone-file text -> inplace -> parsed -> Zone, ZoneUpdater full replacement of another zone, WritableZone node interface, "
+                "ZoneUpdater record-level adds/deletes from another zone, abandoned writer then read); every owner, ancestor, x/a/*/zz child and an out-of-zone "
+                "name x 9 qtypes; the answer is observed through Answer::to_message + the reference walker and compared with the RFC 1034 4.3.2 / RFC 4592 "
+                "lookup model (rcode, AA, answer RRset or CNAME, SOA or NS/DS authority, glue); walk() must enumerate exactly the content; "
+                "distinct = (history, expected shape, node facts, ANY/DS flag)",
+        "assumptions": ["for ANY any one RRset of the node is accepted (RFC 8482); a CNAME answer is the CNAME record alone",
+                        "glue = address records owned by a name-server target of the cut, as zonetree::parsed collects it",
+                        "the builder history classifies records as zonetree::parsed does (insert_zone_cut / insert_cname / insert_rrset)"],
+    },
 }
